@@ -132,6 +132,11 @@ def _run(prop, tier, seed, n_hist, budget, batch, workers, evidence_path, t0, ev
         for f in ("dfxp", "sami"):
             for _ in range(n_gen):
                 sibling_jobs.append({"prop": prop, "tier": tier, "run_seed": sib_master.randrange(1 << 48), "fmt": f, "limit": 40})
+            if f == "dfxp":
+                # bases whose region surely takes its geometry from a referenced style: siblings then differ in <styling> only
+                for _ in range(2 if tier == "quick" else 12):
+                    sibling_jobs.append({"prop": prop, "tier": tier, "run_seed": sib_master.randrange(1 << 48), "fmt": f, "limit": 40,
+                                         "referential": True})
             for name in sib_master.sample(cnames[f], min(n_corpus, len(cnames[f]))):
                 sibling_jobs.append({"prop": prop, "tier": tier, "run_seed": sib_master.randrange(1 << 48), "fmt": f, "limit": 40,
                                      "doc": C[name]["text"]})
